@@ -643,6 +643,40 @@ func runC20(h *Harness) {
 				return
 			}
 		}
+		// several NEW locations are met at the same time (handshakes of different clients): each gets its own store, none
+		// answers for another, nothing stray is left - whoever computes names and creates directories concurrently
+		if tp.Chance(1, 3) {
+			savePre := h.S.pPre
+			h.S.pPre = uint64(Pick(tp, 100, 300, 500)) * (1 << 32) / 1000
+			var fresh []*Location
+			var calls []*HS
+			for k := 0; k < 3+tp.Int(3); k++ {
+				u := fmt.Sprintf("http://crl.sim/concurrent/%d/%d/%s.crl", c, k, strings.Repeat("x", 1+17*k))
+				l := w.NewLocation(LocOpts{Name: fmt.Sprintf("LC%d_%d", c, k), URL: u, Issuer: w.A, NVers: 1, Extra: 1, Width: 12, Base: uint32(20 + 8*c + k)})
+				fresh = append(fresh, l)
+				calls = append(calls, h.StartHandshake(n, fmt.Sprintf("concurrent-new%d", k), w.ChainFor(l.Cert(l.Never[0]), w.A)))
+			}
+			var ts []*Task
+			for _, x := range calls {
+				ts = append(ts, x.Task)
+			}
+			h.Wait(ts...)
+			h.S.pPre = savePre
+			h.Quiesce()
+			h.R.NonTrivial = true
+			for i, l := range fresh {
+				h.R.Checks++
+				if calls[i].Err != nil {
+					h.Violation("C20.store-identity", "concurrent-first-use-denied", "cycle %d: the first handshake for the new location %.50q, concurrent with first handshakes for other new locations, was denied: %v (all origins healthy)", c+1, l.URL, calls[i].Err)
+				} else if pt := l.Pattern(n); pt != "v1" {
+					h.Violation("C20.store-identity", "concurrent-first-use:answers-from-another-location", "cycle %d: after concurrent first use of %d new locations the probes for %.50q show %s instead of its own list", c+1, len(fresh), l.URL, pt)
+				}
+			}
+			checkQuiescent(n, fmt.Sprintf("cycle %d after concurrent first use of %d new locations", c+1, len(fresh)))
+			if len(h.R.Violations) > 0 {
+				return
+			}
+		}
 		// the work_dir belongs to the live instance: a second validator configured with the same work_dir is refused, its
 		// Cleanup (Caddy cleans up a module whose Provision failed) takes nothing away from the owner, and a third one is
 		// refused just the same; the owner's stores are untouched
